@@ -19,7 +19,7 @@ use pallas_validate::utils::{AlonzoError, MultiEraProtocolParameters as P, PostA
 pub const NAME: &str = "exunits";
 
 fn cnt(tok: &str) -> Option<u64> { if tok == "-" { None } else { tok.parse().ok() } }
-fn show_cnt(c: Option<usize>) -> String { match c { None => "-".into(), Some(n) => n.to_string() } }
+pub(crate) fn show_cnt(c: Option<usize>) -> String { match c { None => "-".into(), Some(n) => n.to_string() } }
 
 fn parse_units(toks: &[String]) -> Vec<(u64, u64)> {
     toks.iter().map(|t| { let (a, b) = t.split_once(':').expect("mem:steps"); (a.parse().unwrap(), b.parse().unwrap()) }).collect()
@@ -94,9 +94,9 @@ fn run_unit(era: &str, wits: Vec<u8>, maxmem: u64, maxsteps: u64) -> Option<Resu
 }
 
 /// what the real transaction carries: (v1, v2, v3 witness-set script counts, encoding, budgets, plutus reference scripts)
-struct View { v: [Option<usize>; 3], enc: &'static str, units: Vec<(u64, u64)>, ref_plutus: usize }
+pub(crate) struct View { pub v: [Option<usize>; 3], pub enc: &'static str, pub units: Vec<(u64, u64)>, pub ref_plutus: usize }
 
-fn view(f: &Fixture) -> View {
+pub(crate) fn view(f: &Fixture) -> View {
     let tx = f.tx();
     let utxos = f.utxos();
     let ref_plutus = tx.reference_inputs().iter().filter(|i| {
@@ -144,7 +144,7 @@ fn around(g: &mut Gen, sum: u128) -> u64 {
     }
 }
 
-fn units_text(u: &[(u64, u64)]) -> String { u.iter().map(|(a, b)| format!(" {a}:{b}")).collect() }
+pub(crate) fn units_text(u: &[(u64, u64)]) -> String { u.iter().map(|(a, b)| format!(" {a}:{b}")).collect() }
 
 pub fn generate(g: &mut Gen) {
     g.case(vec!["fixtures".to_string()]);
